@@ -182,6 +182,45 @@ ports = [n.value for n in ast.walk(find_method(find_class("DoIPTransport"), "con
 if len(ports) != 1:
     die("default port literal in DoIPTransport.connect")
 out.append(f"def defaultPort : Nat := {ports[0]}")
+
+# every asyncio.Queue constructed in doip.py with its capacity (0 = unbounded): the reader task's `await put()` never
+# suspends and the `put_nowait` re-queue of skipped frames never raises only as long as these are unbounded
+def queue_capacity(call, cls):
+    args = list(call.args) + [k.value for k in call.keywords if k.arg == "maxsize"]
+    if not args:
+        return 0
+    a = args[0]
+    if isinstance(a, ast.Constant) and isinstance(a.value, int):
+        return max(0, a.value)
+    name = None
+    if isinstance(a, ast.Attribute) and isinstance(a.value, ast.Name) and a.value.id in ("self", "cls", cls.name):
+        name = a.attr
+        holder = getattr(D, cls.name, None)
+    elif isinstance(a, ast.Name):
+        name = a.id
+        holder = D
+    if name is not None:
+        v = getattr(holder, name, None)
+        if isinstance(v, int) and not isinstance(v, bool):
+            return max(0, v)
+    die(f"asyncio.Queue({ast.unparse(a)}) in {cls.name}: a capacity the translator cannot evaluate")
+
+
+queues = []
+for cls in [n for n in tree.body if isinstance(n, ast.ClassDef)]:
+    for n in ast.walk(cls):
+        tgt, val = None, None
+        if isinstance(n, ast.Assign) and len(n.targets) == 1:
+            tgt, val = n.targets[0], n.value
+        elif isinstance(n, ast.AnnAssign) and n.value is not None:
+            tgt, val = n.target, n.value
+        if val is not None and isinstance(val, ast.Call) and ast.unparse(val.func) in ("asyncio.Queue", "Queue"):
+            queues.append((n.lineno, f"{cls.name}.{ast.unparse(tgt)}", queue_capacity(val, cls)))
+n_calls = sum(1 for n in ast.walk(tree) if isinstance(n, ast.Call) and ast.unparse(n.func) in ("asyncio.Queue", "Queue"))
+if not queues or n_calls != len(queues):
+    die(f"asyncio.Queue(...) constructions in doip.py: {n_calls} calls, {len(queues)} understood")
+out.append("/-- every `asyncio.Queue` constructed in doip.py with its capacity (0 = unbounded), in source order -/")
+out.append("def queueCaps : List (String × Nat) := [" + ", ".join(f"({lean_str(t)}, {c})" for _, t, c in sorted(queues)) + "]")
 out += ["", "end Gallia.Gen.C06Doip", ""]
 
 write_lean("C06Doip", "\n".join(out))
